@@ -8,6 +8,14 @@ CLAIMS = {
    text="TLC checks the coherence laws (equivalence, trichotomy, unions, transitivity, prefix order, key-order insensitivity, u* agreement) on the specification's Equals/Compare over every pair and triple of a universe dense in near-equal values; every pair is then replayed through the real evaluator for all ten operators under several monotone number lifts, so the laws transfer to the code on that universe; seeded random pairs/triples recorded from the real evaluator are validated by TLC against the same operators.",
    note="Trusted: TLC, the harness renderer (value -> source text), monotone zero-preserving number lifts, code-point-sorted alphabet. NaN excluded as the property states. Random part is sampled, not exhaustive.",
    technique="TLA+ spec (BlotsOrder) model-checked with TLC; TLC-enumerated cases replayed into the real evaluator; recorded traces validated by TLC (Trace_C12)"),
+ "C03": dict(category="model_checking", design_ref="5 C03",
+   text="Session.tla is a state machine (root scope, outputs, last outcome) whose statements are evaluated by the reference evaluator BlotsEval.tla; TLC explores every statement sequence of length 2 (thorough: 3) over a 96-statement alphabet (binding, rebinding, nested and self-nested assignment, failing statements with partial effect, reserved names, do-block shadowing, closures, calls, parameter shadowing, assignment inside function bodies, outputs) and checks the action properties Immutable, OutputsAppendOnly and FailedStmtFrame on every transition. Every behaviour is replayed in a real session, comparing success, value and the whole root scope after each statement. Random 25-statement sessions over 8 names, recorded with the insertion hook, are validated by TLC: each statement is re-executed by the model and Immutable / NoDoubleInsert / NoLeak / InsertsExplainChange are evaluated on the observed states.",
+   note="Trusted: TLC, the core-language renderer, hook H1 (Environment::insert, cfg blots_verif). Closures are compared by kind in scope snapshots and by behaviour through call statements.",
+   technique="TLA+ state machine (Session over BlotsEval) model-checked with TLC; behaviours replayed into a real session; recorded sessions (with hook events) validated by TLC (Trace_C03)"),
+ "C04": dict(category="model_checking", design_ref="5 C04",
+   text="BlotsEval.tla gives lambdas by-value capture, the call-time chain caller < self name < captured < parameters, and positional argument binding; TLC checks CallSiteIndependent (closed-after-capture => same result in every context) for 15 closure definitions x 15 calling contexts (shadowing parameter / do-local, via / where / map / reduce callbacks, passed as value, refused redefinition, a parameter named inputs) and their two-level nestings, and ArgsLaw for every parameter list required^r optional^o rest^{0,1} x 0..7 arguments. Each state is replayed into the real evaluator (model value at top level and in context; the two real results must also agree). Random parameter lists / argument tuples and random towers of shadowing contexts are recorded and re-evaluated by TLC.",
+   note="Trusted: TLC, core-language renderer. Documented parameter shape only. Errors compared as failure, not by message.",
+   technique="TLA+ reference evaluator (BlotsEval) model-checked with TLC; cases replayed into the real evaluator; recorded calls validated by TLC (Trace_C04)"),
  "C07": dict(category="model_checking", design_ref="5 C07",
    text="SyntaxRich.tla defines whole-language trees, a fully parenthesising and a reference-minimal printer and the chain-complete tree generator (every node kind as child of every node kind at every operand position); TLC enumerates the trees (one state each) and emits both texts. The real parser must map the full text to exactly the model tree and the minimal text to the same tree (binding the reference parenthesisation rule to the grammar); the library formatter, the WASM driver and the CLI then format each program at several widths, as expression, output declaration and inside a multi-statement program, and the re-parsed statement sequence must be identical. Random operator expressions formatted for real are tokenised and judged by ParseRef (independent precedence table); corpus programs go through every driver and width (Trace_C07).",
    note="Trusted: TLC, AST projection, PartialEq of the repository AST (ignores spans), the WASM shim, the operator-fragment tokenizer. Comments are C09's subject. Widths sampled {1,20,40,default} quick / 10 widths thorough.",
